@@ -18,7 +18,8 @@ type RunResult struct {
 	BuildErr string // non-empty: the Go toolchain rejected the program (first lines)
 	Stdout   string
 	Exit     int
-	Panic    string // text after "panic: " up to the goroutine dump ("" = none); "fatal error: …" for fatal errors
+	Panicked bool   // the program died of a panic or a runtime fatal error
+	Panic    string // text after "panic: " up to the goroutine dump; "fatal error: …" for fatal errors
 	Timeout  bool
 }
 
@@ -39,6 +40,9 @@ var hexAddrRe = regexp.MustCompile(`0x[0-9a-f]+`)
 // scratch module, builds all of them with ONE `go build` (failing packages do not stop the
 // others), and runs every binary with a timeout.  Offline; xgo resolves to the tree under test.
 func RunBatch(dir string, progs [][]byte, timeout time.Duration) ([]RunResult, error) {
+	if abs, err := filepath.Abs(dir); err == nil {
+		dir = abs
+	}
 	if err := WriteModule(dir); err != nil {
 		return nil, err
 	}
@@ -134,8 +138,10 @@ func runOne(exe string, timeout time.Duration) RunResult {
 		if j := strings.Index(p, "\n[signal "); j >= 0 {
 			p = p[:j]
 		}
+		r.Panicked = true
 		r.Panic = hexAddrRe.ReplaceAllString(strings.TrimRight(p, "\n"), "0x?")
 	} else if i := strings.Index(stderr, "fatal error: "); i >= 0 {
+		r.Panicked = true
 		r.Panic = firstLine(stderr[i:])
 	}
 	return r
